@@ -210,7 +210,10 @@ pub fn value_to_tokens(value: &ASN1Value) -> Result<String, GeneratorError> {
                 })
             })
             .map(|mut s| {
-                s.pop();
+                // drop the separator after the last element; an empty list has none
+                if s.ends_with(',') {
+                    s.pop();
+                }
                 s + "]"
             }),
         ASN1Value::LinkedNestedValue {
